@@ -25,7 +25,8 @@ type config struct {
 	Interval int    `json:"interval_ms"`
 	Rate     int    `json:"initial_rate"`
 	Depth    int    `json:"depth"`
-	First    int    `json:"first_symbol"` // shard: histories starting with this symbol
+	First    int    `json:"first_symbol"`               // shard: histories starting with this symbol
+	Script   []int  `json:"scripted_history,omitempty"` // a fixed history (symbols; 1000+k = SetRate(k kbit/s)) instead of a search
 }
 
 // wire sizes of the packets the alphabet writes (payload, number of CSRCs)
@@ -301,8 +302,13 @@ func (sys *system) apply(sym int) (string, error) {
 		vsched.Advance(10 * iv)
 	case sym == 11:
 		vsched.Advance(200 * iv)
-	case sym <= 14:
-		r := rates[sym-12]
+	case sym <= 14 || sym >= 1000:
+		var r int
+		if sym >= 1000 {
+			r = (sym - 1000) * 1000
+		} else {
+			r = rates[sym-12]
+		}
 		sys.api.setRate(r)
 		if sys.c.Pacer == "token-bucket" {
 			sys.rateAt = append(sys.rateAt, vsched.NowNanos())
@@ -362,6 +368,10 @@ type replay struct {
 func describe(c config, h []int) replay {
 	r := replay{Config: c, Syms: h}
 	for _, a := range h {
+		if a >= 1000 {
+			r.History = append(r.History, fmt.Sprintf("SetRate(%dk)", a-1000))
+			continue
+		}
 		r.History = append(r.History, symNames[a])
 	}
 	return r
@@ -451,6 +461,16 @@ func configs(tier string) []config {
 			sharded = append(sharded, c)
 		}
 	}
+	// scripted: a backlog of 250 packets of 700 bytes (1.4 Mbit), then a SMALL change of the rate while it
+	// drains (down by 4 %, by 1 %, up by 2 %): the bound of the new segment applies from the change on
+	for _, k := range []int{960, 990, 1020} {
+		var h []int
+		for n := 0; n < 250; n++ {
+			h = append(h, 1) // 700 bytes: small enough for the bucket (burst 12000 bits) to sustain the full rate
+		}
+		h = append(h, 9, 1000+k)
+		sharded = append(sharded, config{Pacer: "token-bucket", Interval: 5, Rate: 1_000_000, Script: h})
+	}
 	return sharded
 }
 
@@ -471,6 +491,15 @@ func init() {
 		Run: func(tier string, i int, deadline time.Time) *hk.JobResult {
 			c := configs(tier)[i]
 			r := &hk.JobResult{Exhaustive: true, Bounds: map[string]any{"depth": c.Depth, "alphabet": len(symNames)}}
+			if len(c.Script) > 0 {
+				st := exec(c, c.Script)
+				r.Executions, r.States, r.Transitions, r.Nontrivial = 1, 1, int64(len(c.Script)), 1
+				r.Outcomes = map[string]int{"scripted:" + st.Outcome: 1}
+				if st.Violation != nil {
+					r.Violations = append(r.Violations, *st.Violation)
+				}
+				return r
+			}
 			s := &hk.Search{Alphabet: len(symNames), Depth: c.Depth, Dedup: true, Deadline: deadline, Prefix: []int{c.First},
 				Exec:     func(h []int) hk.Step { return exec(c, h) },
 				Describe: func(h []int) any { return describe(c, h) }}
